@@ -36,6 +36,15 @@ pub const QSIG: &str = "stop-ignored-in-quiescence|Searcher::quiescence_search";
 pub const STALL_S: f64 = 6.0;
 pub const OUTER_S: f64 = 150.0;
 
+/// utime + stime of this process in clock ticks: a search that allocates memory or is starved of
+/// CPU by other processes still accumulates ticks; a blocked one does not
+fn self_cpu_ticks() -> u64 {
+    let Ok(s) = std::fs::read_to_string("/proc/self/stat") else { return 0 };
+    let Some(i) = s.rfind(')') else { return 0 };
+    let f: Vec<&str> = s[i + 1..].split_whitespace().collect();
+    f.get(11).and_then(|x| x.parse::<u64>().ok()).unwrap_or(0) + f.get(12).and_then(|x| x.parse::<u64>().ok()).unwrap_or(0)
+}
+
 fn stall_s(ctx: &Ctx) -> f64 {
     if ctx.mode == "miri" {
         900.0
@@ -211,6 +220,7 @@ pub fn run_case(case: &Case, ev: &Evaluator, ctx: &Ctx, rep: &mut Report) -> Ver
     let mut progress_after_cancel = 0u64;
     let mut last_nodes = 0u64;
     let mut last_change = Instant::now();
+    let mut last_cpu = self_cpu_ticks();
     let mut stop_sent_at: Option<Instant> = None;
     loop {
         // repeated Stops: the remaining instants
@@ -260,6 +270,12 @@ pub fn run_case(case: &Case, ev: &Evaluator, ctx: &Ctx, rep: &mut Report) -> Ver
         let n = srch::NODES.load(Relaxed) + srch::QNODES.load(Relaxed);
         if n != last_nodes {
             last_nodes = n;
+            last_change = Instant::now();
+        }
+        // "stuck" means blocked: no node *and* (almost) no CPU used by this process over the window
+        let cpu = self_cpu_ticks();
+        if cpu > last_cpu + 10 {
+            last_cpu = cpu;
             last_change = Instant::now();
         }
         let after = srch::MAX_THREAD_NODES_AFTER_CANCEL.load(Relaxed);
@@ -653,12 +669,18 @@ fn sync_scenario(sc: &crate::scenario::Scenario, ev: &Evaluator, ctx: &Ctx, rep:
     let replay = json!({"scenario": sc.to_json()});
     let mut last_nodes = 0;
     let mut last_change = Instant::now();
+    let mut last_cpu = self_cpu_ticks();
     let t0 = Instant::now();
     while !h.is_finished() {
         std::thread::sleep(Duration::from_millis(10));
         let n = srch::NODES.load(Relaxed) + srch::QNODES.load(Relaxed);
         if n != last_nodes {
             last_nodes = n;
+            last_change = Instant::now();
+        }
+        let cpu = self_cpu_ticks();
+        if cpu > last_cpu + 10 {
+            last_cpu = cpu;
             last_change = Instant::now();
         }
         let after = srch::MAX_THREAD_NODES_AFTER_CANCEL.load(Relaxed);
